@@ -56,7 +56,17 @@ def install():
         _installed = True
 
 
+_SITES = None
+
+
 def interesting_sites():
+    global _SITES
+    if _SITES is None:
+        _SITES = _interesting_sites()
+    return _SITES
+
+
+def _interesting_sites():
     """(tag, line) of lines in simulator.py that touch the shared lifecycle
     state or the wake-up flag, found by scanning the AST (robust to line
     renumbering)."""
@@ -339,9 +349,10 @@ class Runner:
         det = self.hist.det
         det.atomic += 1
         try:
-            return (sim._run_state.name, sim._replication_state.name,
-                    _num(sim._simulator_time), _num(sim._run_until_time),
-                    sim._run_until_including, sim.eventlist().size())
+            # public API where there is one; the run bound has none
+            return (sim.run_state.name, sim.replication_state.name,
+                    _num(sim.simulator_time), _num(getattr(sim, "_run_until_time", None)),
+                    getattr(sim, "_run_until_including", None), sim.eventlist().size())
         finally:
             det.atomic -= 1
 
@@ -493,7 +504,14 @@ class Runner:
     # -- state watch -------------------------------------------------------
     def watch(self, det, lt):
         d = self.sim.__dict__
-        cur = (d["_run_state"], d["_replication_state"])
+        try:
+            cur = (d["_run_state"], d["_replication_state"])
+        except KeyError:
+            det.atomic += 1
+            try:
+                cur = (self.sim.run_state, self.sim.replication_state)
+            finally:
+                det.atomic -= 1
         if cur != self.last_state:
             old = self.last_state
             self.last_state = cur
@@ -551,7 +569,7 @@ class Runner:
             det.replay_stalls = det.schedule.stalls
         if sc.get("clock_jumps"):
             det.clock_jumps = {int(k): v for k, v in sc["clock_jumps"].items()}
-        self.last_state = (self.sim._run_state, self.sim._replication_state)
+        self.last_state = (self.sim.run_state, self.sim.replication_state)
         self.hist.det = det
         self.det = det
         self.aborted = None
